@@ -150,7 +150,7 @@ class Engine:
                 out.append((cfg, len(self.trunc_points(cfg))))
             out.append(("race", 400 if tier == "quick" else 20_000))
             # compiled-library format: a kill between the rebuilt libraries and the cache file that describes them
-            out.append(("codegen_crash", 12 if tier == "quick" else 400))
+            out.append(("codegen_crash", 16 if tier == "quick" else 400))
             return out
         raise ValueError(prop)
 
@@ -259,7 +259,7 @@ class Engine:
         keys = ["model:" + f for f in ent["model"]] + ["lib:" + f for f in ent["lib"]]
         opt_a = 0 if rng.random() < 0.5 else rng.randrange(len(cp.OPTION_SETS))
         opt_b = rng.choice([i for i in range(len(cp.OPTION_SETS)) if i != opt_a])
-        cause = rng.choice(["options", "options", "edit", "version", "none"])
+        cause = rng.choice(["options", "options", "options", "edit", "version", "none"])
         ops = []
         if cause != "none":
             ops.append({"op": "transfer"})
@@ -270,11 +270,14 @@ class Engine:
             ops.append({"op": "edit", "file": rng.choice(keys), "vals": _vals(rng), "extra": rng.random() < 0.25})
         elif cause == "version":
             ops.append({"op": "version", "label": 1})
-        ops.append({"op": "transfer", "crash_at": rng.randint(0, 14)})
+        # a rebuilding call performs ~24 file operations: the attempt to load (scan, open, read, close), the compile
+        # (scan, read sources), per library the removal of its .c and .o once it is linked, then the cache file's
+        # open / write / close / replace
+        ops.append({"op": "transfer", "crash_at": rng.choice([rng.randint(0, 26), rng.randint(12, 24), rng.randint(12, 24)])})
         ops.append({"op": "restart"})
-        if cause == "options" and rng.random() < 0.6:
+        if cause == "options" and rng.random() < 0.8:
             ops.append({"op": "options", "set": opt_a})
-        if cause == "version" and rng.random() < 0.6:
+        if cause == "version" and rng.random() < 0.8:
             ops.append({"op": "version", "label": 0})
         ops += [{"op": "transfer"}, {"op": "restart"}, {"op": "transfer"}]
         return {"kind": "codegen", "crash": True, "model": name, "vals_seed": rng.randrange(1 << 30), "ops": ops, "optset": opt_a,
@@ -565,7 +568,8 @@ class Engine:
                 viol = (v[0], v[1], v[2], v[3])
                 break
         clock.now_us = state["clock_us"]
-        return self._result(plan, log, clock, counts, {"history_states": sorted(states)}, viol, 0)
+        measure = "crash_points_and_schedules" if plan.get("crash") else "history_states"
+        return self._result(plan, log, clock, counts, {measure: sorted(states)}, viol, 0)
 
     def codegen_segment(self, job):
         """Executed in the child interpreter: the operations of one simulated process."""
@@ -630,6 +634,8 @@ class Engine:
                              "models_held" if job.get("hold_models") else "models_dropped"]
                     states.add(canon.digest((job["model"], optset, tuple(sorted(pending)), built_in_this_proc, loaded_in_this_proc,
                                              have_cache, "codegen")))
+                    if crashed_in:
+                        shape = ["codegen_after_crash", crashed_in["kind"]] + shape[1:3]
                     if op.get("crash_at") is not None:
                         shape = ["codegen_crash"] + shape[1:]
                         fs.crash_at = (len(fs.trace) + op["crash_at"], 0)
